@@ -80,6 +80,33 @@ def numpy_api_names():
     return out
 
 
+# numpy's array-flag bits (ndarraytypes.h; fixed by the numpy ABI, the values below are only used when the header cannot be read)
+_FLAG_BITS_ABI = {"NPY_ARRAY_C_CONTIGUOUS": 0x0001, "NPY_ARRAY_F_CONTIGUOUS": 0x0002, "NPY_ARRAY_ENSURECOPY": 0x0020}
+
+
+def numpy_flag_bits():
+    """{macro name: value} of the layout bits of numpy's array flags, read from the `#define`s of the installed ndarraytypes.h: a requirement
+    word handed to PyArray_FromAny (which clang shows as a number, every convenience macro expanded) is decoded with these"""
+    if "flagbits" in _INC:
+        return _INC["flagbits"]
+    out = {}
+    try:
+        for d in include_dirs():
+            for root, _, files in os.walk(d):
+                if "ndarraytypes.h" in files:
+                    txt = open(os.path.join(root, "ndarraytypes.h"), errors="replace").read()
+                    for nm in _FLAG_BITS_ABI:
+                        m = re.search(r"^[ \t]*#[ \t]*define[ \t]+%s[ \t]+\(?[ \t]*(0[xX][0-9a-fA-F]+|\d+)[uUlL]*[ \t]*\)?[ \t]*(?:/\*.*|//.*)?$" % nm, txt, re.M)
+                        if m:
+                            out.setdefault(nm, int(m.group(1), 0))
+    except Unsupported:
+        pass
+    for nm, v in _FLAG_BITS_ABI.items():
+        out.setdefault(nm, v)
+    _INC["flagbits"] = out
+    return out
+
+
 _CLANG_CACHE = {}
 
 
@@ -275,7 +302,15 @@ class CFunc:
                 if p2 or q2:
                     raise Unsupported("side effect in the right operand of && / ||")
                 return ("and" if op == "&&" else "or", a, b)
-            if op == "=" or op == ",":
+            if op == ",":
+                # `(a, b)` as a value: the statements of a, then the value of b (read where an assignment or a return takes the value apart:
+                # _assign / _return; any other place reports the expression kind as unsupported)
+                p2, q2 = [], []
+                b = self.expr(n["inner"][1], p2, q2)
+                if p2 or q2:
+                    raise Unsupported("side effect in the right operand of the C operator `,`")
+                return ("seq", self._exprstmt(n["inner"][0]), b)
+            if op == "=":
                 raise Unsupported(f"C operator `{op}` inside an expression")
             a = self.expr(n["inner"][0], pre, post)
             b = self.expr(n["inner"][1], pre, post)
@@ -368,14 +403,18 @@ class CFunc:
         return self.stmt(n)
 
     def _assign(self, lv, rhs):
-        """`lv = c ? a : b` -> if c: lv = a else: lv = b"""
+        """`lv = c ? a : b` -> if c: lv = a else: lv = b;  `lv = (s, b)` -> s; lv = b"""
         if rhs[0] == "cond":
             return [("if", rhs[1], self._assign(lv, rhs[2]), self._assign(lv, rhs[3]))]
+        if rhs[0] == "seq":
+            return list(rhs[1]) + self._assign(lv, rhs[2])
         return [("set", lv, rhs)]
 
     def _return(self, e):
         if e is not None and e[0] == "cond":
             return [("if", e[1], self._return(e[2]), self._return(e[3]))]
+        if e is not None and e[0] == "seq":
+            return list(e[1]) + self._return(e[2])
         return [("return", e)]
 
     def stmt(self, n):
@@ -420,6 +459,8 @@ class CFunc:
             lhs = self.lvalue(n["inner"][0], pre, post)
             rhs = self.expr(n["inner"][1], pre, post)
             op = n["opcode"][:-1]
+            if op in ("|", "&", "^", "<<", ">>"):
+                return pre + [("set", lhs, ("call", f"op:{op}", [lhs, rhs], {}))] + post       # as the binary operator is lowered
             if op not in ("+", "-", "*", "/"):
                 raise Unsupported(f"C compound assignment {n['opcode']}")
             return pre + [("set", lhs, ("bin", op, lhs, rhs))] + post
